@@ -119,6 +119,10 @@ def parse_strace(path):
             line = line.rstrip("\n")
             if "--- SIG" in line or "+++ " in line:
                 continue
+            if " ???(" in line or "<... ??? resumed>" in line:
+                # strace could not read the syscall number: the thread was torn down (exit_group of the
+                # process) at syscall entry; nothing was executed for it
+                continue
             m = _UNFIN.match(line)
             if m:
                 pending[m.group(1)] = (m.group(2), m.group(3))
